@@ -243,8 +243,17 @@ fn expand_struct_wildcard_assertion(
             let field_pattern = &f.pattern;
             let field_operations = &f.operations;
 
-            // Access the field and apply tail operations
-            let base_field_access = quote! { (#value_expr).#field_name };
+            // Access the field and apply tail operations. A tuple index is given the span
+            // of the field access it was written as, so that a type error on it points
+            // into the pattern (a bare `syn::Index` has the call-site span).
+            let base_field_access = match &field_name {
+                crate::pattern::FieldName::Index(index) => {
+                    let mut idx = syn::Index::from(*index);
+                    idx.span = f.operations.root_field_span();
+                    quote! { (#value_expr).#idx }
+                }
+                crate::pattern::FieldName::Ident(_) => quote! { (#value_expr).#field_name },
+            };
 
             let expr = if let Some(tail_ops) = field_operations.tail_operations() {
                 // Apply remaining operations after the field access
